@@ -71,7 +71,8 @@ Definition de_value (x : sexp) : option value :=
 Definition de_skind (x : sexp) : option skind :=
   do s <- de_str x;
   if tag_is s "csv" then Some SCsv else if tag_is s "sqltable" then Some SSqlTable else if tag_is s "sqlquery" then Some SSqlQuery
-  else if tag_is s "columnar" then Some SColumnar else if tag_is s "json" then Some SJson else if tag_is s "frame" then Some SFrame else None.
+  else if tag_is s "columnar" then Some SColumnar else if tag_is s "json" then Some SJson else if tag_is s "xml" then Some SXml else if tag_is s "view" then Some SView
+  else if tag_is s "frame" then Some SFrame else None.
 Record source := { src_key : ustr; src_kind : skind; src_table : table }.
 Definition de_source (x : sexp) : option source :=
   match x with
@@ -106,7 +107,11 @@ Definition value_text (v : value) : option ustr :=
 (* a CSV/TSV file cannot tell NULL from the empty string: there the NULL of the abstract table is the empty cell,
    which is null exactly when the empty string is listed in na_values *)
 Definition kind_text (k : skind) (v : value) : option ustr :=
-  match k, v with SCsv, VNull => Some [] | _, _ => value_text v end.
+  match k, v with
+  | SCsv, VNull => Some []
+  | SXml, VStr [] => None | SView, VStr [] => None      (* these formats cannot hold an empty string *)
+  | _, _ => value_text v
+  end.
 Definition case_tables (srcs : list source) (key : ustr) : stable :=
   match find_source srcs key with
   | None => []
